@@ -32,7 +32,7 @@ REGIMES = ["FLOAT", "FLOAT", "FLOAT", "REAL", "BOOL", "MT", "MP", "QQ", "FREE"]
 
 
 def examples(tier):
-    return 800 if tier == "quick" else 16000
+    return 2000 if tier == "quick" else 24000
 
 
 @st.composite
